@@ -80,6 +80,12 @@ ScriptStuckBusy == << [op |-> "cif_create", cif |-> "c1"],
                       [op |-> "create_loop", cont |-> "h1", category |-> "k", names |-> <<"_z">>],
                       [op |-> "loop_add_packet", loop |-> "l1", packet |-> << <<"_z", "s1">> >>],
                       [op |-> "get_packets", loop |-> "l1"] >>
+\* an open iterator over the three-packet loop l1 that has delivered its first packet and has just refused an update (the
+\* packet carries an item of another loop): what is changed through the iterator afterwards is as permanent after close, and
+\* as void after abort, as if the refusal had not happened
+ScriptRefused == ScriptLoop \o << [op |-> "get_packets", loop |-> "l1"],
+                                  [op |-> "itr_next", itr |-> "c1"],
+                                  [op |-> "itr_update", itr |-> "c1", packet |-> << <<"_z", "s1">> >>] >>
 MCCSlots2 == <<"h1", "h2">>
 MCLSlots2 == <<"l1", "l2">>
 MCCSlots1 == <<"h1">>
